@@ -26,6 +26,12 @@ checks = {
  "C11": dict(text="Relational obligations for all 255 DD/FD second bytes and 256 DDCB/FDCB fourth bytes: Step_FD(swap S) == swap(Step_DD(S)) on state, HALT, memory and the access sequence; plus independence of the DD form from IY by a second 2-run obligation.", note="Assumes no data access hits the prefix byte at PC (the one byte where the two programs differ by construction).", ref="§5 C11"),
  "C12": dict(text="Every implicit/explicit panic site on every explored path of Step is a solver obligation: all 1786 encodings (ideal bus, IO == nil), arbitrary requests (any Type/IM, len(Data) 0..4, PC anywhere incl. 0xFFFF), DumbMemory/DumbIO of symbolic length, cut-off instructions, sparse MapMemory; unsupported encodings must be consumed; structural: no back edge taken and acyclic call graph below Step.", note="Memory non-nil and MapMemory initialised are preconditions. Liveness of arbitrary programs is outside; Run's return on HALT is C08.", ref="§5 C12"),
  "C14": dict(text="R and I components of the all-encodings symbolic run (unsupported encodings included), all 256 R and all I; A/F for LD A,I / LD A,R / LD I,A / LD R,A.", note="As C01; DDCB/FDCB accept two or three fetches.", ref="§5 C14"),
+ "C15": dict(text="One-step refinement of every method of DumbMemory, DumbIO and MapMemory against a byte-map model, executed symbolically: slice lengths are solver variables (0..65536 / 0..256), addresses, ports and values arbitrary; Put with 0..4 (thorough 8) data bytes; MapMemory methods on arbitrary initial maps with <= 3 (thorough 4) entries incl. Clone independence, Clear, Equal soundness/completeness/type cases. Every index/slice/nil-map panic site is an obligation.",
+             note="reflect.DeepEqual by contract stub; maps with more entries only by the bounded claim (range loops unwound with an unwinding assertion); nil MapMemory outside; histories by induction from the one-step refinement (paper step).", ref="§5 C15"),
+ "C17": dict(text="The tables are obtained by executing internal/zex's real package initialiser and Status.Bytes in the interpreter; each of the 2 x 67 records (mask, three state vectors, CRC, padded description, '$') is compared with the image record located through the image's own pointer table, the byte offset inside the record being a solver variable; the case count is taken from the 0-terminated table; the images must have the pinned canonical SHA-256 digests.",
+             note="Ground data: the solver's role is a finite comparison and adds little over evaluation (said so in DESIGN.md); claimed because the technique applies unchanged (real initialiser and accessor code executed). Trusted: pinned digests, record layout of zexdoc.asm.", ref="§5 C17"),
+ "C18": dict(text="The real BIOS bytes installed by NewMemory run on the real z80.Step, tinycpm.Memory and tinycpm.IO, symbolically: CALL 5 at an arbitrary call site with C=2 (8 Steps) and C=9 with strings of 0..3 (thorough 5) arbitrary non-'$' bytes at an arbitrary address (10+6n Steps), the per-character lemma at the loop head 0xFE14 (strings of any length by induction), JP 0 -> halted at 0xFF03, and the port device (port 0 = console in program order; other ports and reads only warn).",
+             note="Program, stack and string lie in 0x0100-0xFDFF and do not overlap each other; unsupported function numbers outside the statement; sequences of calls by composition (paper step). Memory reads through symbolic stores are resolved by solver-backed alias queries under the path condition.", ref="§5 C18"),
  "C16": dict(text="Direct bit-vector queries over the complete domain: mask x F x all of GPR for GetFlag/SetFlag/ResetFlag (stated bit by bit), the eight constants, all 65536 values for SetU16/U16.", note="Complete domain; trusted: engine + z3.", ref="§5 C16"),
 }
 
